@@ -525,8 +525,10 @@ func c06Absent(r *vlib.Run) {
 		{"file exists everywhere but may not be read on any", "denied/a.log", nil, 1, false},
 		{"only one of three servers has files", "abs4/*.log", []int{1}, 2, true},
 	}
+	// a file whose reader fails (empty or garbage .gz) among healthy files
+	scens = append(scens[:3:3], append([]scen{{"unreadable .gz files among healthy ones", "abs5/*", []int{0, 1, 2}, 2, true}}, scens[3:]...)...)
 	if !r.Thorough() {
-		scens = scens[:4]
+		scens = scens[:5]
 	}
 	vlib.Parallel(len(scens), len(scens), func(i int) {
 		sc := scens[i]
@@ -553,6 +555,15 @@ func c06Absent(r *vlib.Run) {
 					name = filepath.Join(dir, fmt.Sprintf("p%d.log", f))
 				}
 				fl.WriteFile(s, name, b.Bytes())
+			}
+		}
+		if dir == "abs5" {
+			for s := range fl.Servers {
+				fl.WriteFile(s, filepath.Join(dir, "broken-empty.gz"), nil)
+				fl.WriteFile(s, filepath.Join(dir, "broken-garbage.gz"), []byte("this is not gzip data at all\nMAPREDUCE:CONS|fid=zz|g=g0|w=1\n"))
+				if s == 1 {
+					fl.WriteFile(s, filepath.Join(dir, "broken-garbage.zst"), []byte("neither is this zstd\n"))
+				}
 			}
 		}
 		out := filepath.Join(fl.Home, fmt.Sprintf("abs-%d.csv", i))
